@@ -330,8 +330,19 @@ def node_value(v):
 
 def defaults_cases(res):
     for di, d in enumerate(DEFAULTS):
-        for override in (False, True, 'over-5', 'extra-first'):
-            if override == 'extra-first':
+        for override in (False, True, 'over-5', 'extra-first', 'inherited-init'):
+            if override == 'inherited-init':
+                # a subclass that inherits __init__ and only changes the default table; the base is looked at first
+                class Kbase:
+                    def __init__(self, req: int, x='not the default', y: int = 3) -> None:
+                        pass
+                    _yatiml_defaults = {'x': 'base default'}
+                yatiml.Node(to_node(('m', P + 'map', ((('s', P + 'str', 'x'), ('s', P + 'str', 'base default')),)))
+                            ).remove_attributes_with_default_values(Kbase)
+
+                class K(Kbase):
+                    _yatiml_defaults = {'x': d}
+            elif override == 'extra-first':
                 # a defaulted _yatiml_extra declared before the defaulted parameters must not shift their defaults
                 class K:
                     def __init__(self, req: int, _yatiml_extra: collections.OrderedDict = None, w: int = 77, x=d, y: int = 3) -> None:
